@@ -31,12 +31,16 @@ inductive Stored
   | array (xs : List Sc)
 deriving DecidableEq, Repr, Inhabited
 
-/-- h5py: can this Python value be assigned to `group.attrs[key]`?  `None` (also inside a sequence) cannot -/
+/-- HDF5 keeps attributes in the object header: one of 64 KiB or more (8192 doubles) is refused (OSError) -/
+def attrMaxLen : Nat := 8192
+
+/-- h5py: can this Python value be assigned to `group.attrs[key]`?  `None` (also inside a sequence) cannot,
+    nor can a sequence too long for the object header -/
 def h5Attr : PyVal → Option Stored
   | .sc .none => Option.none
   | .sc s => some (.scalar s)
-  | .seq xs => if xs.any (· == Sc.none) then Option.none else some (.array xs)
-  | .ndarr xs => if xs.any (· == Sc.none) then Option.none else some (.array xs)
+  | .seq xs => if xs.any (· == Sc.none) ∨ attrMaxLen ≤ xs.length then Option.none else some (.array xs)
+  | .ndarr xs => if xs.any (· == Sc.none) ∨ attrMaxLen ≤ xs.length then Option.none else some (.array xs)
 
 /-- DNPLab's None ↔ alias mapping before handing a value to h5py -/
 def toAlias : PyVal → PyVal
